@@ -225,20 +225,41 @@ func (z *zone) assume(l lin) {
 }
 
 type zoneAI struct {
-	p      *Program
-	f      *ssa.Function
-	syms   map[ssa.Value]int
-	names  []string
-	lins   map[ssa.Value]lin
-	axioms func(v ssa.Value) (lo, hi *big.Int)
-	in     map[*ssa.BasicBlock][]*part
-	word   int
-	joined bool
+	p     *Program
+	f     *ssa.Function
+	syms  map[ssa.Value]int
+	names []string
+	lins  map[ssa.Value]lin
+	// configuration (set before run)
+	axioms    func(v ssa.Value) (lo, hi *big.Int)                         // bounds of base symbols
+	override  map[ssa.Value]lin                                           // values modelled by a given expression
+	extraSyms []ssa.Value                                                 // synthetic symbols (keyed by a non-integer value)
+	setup     func(a *zoneAI, top *zone)                                  // relational axioms
+	boolFacts map[ssa.Value][]func(a *zoneAI) lin                         // l <= 0 facts assumed where a boolean value holds
+	callFacts map[ssa.Instruction][]func(a *zoneAI, pt *part) (lin, bool) // l <= 0 facts assumed after an instruction
+	in, out   map[*ssa.BasicBlock][]*part
+	cells     map[*ssa.Alloc]bool // local integer variables whose address does not escape before the return
+	word      int
+	joined    bool
 }
 
+// part: one trace class: a zone, the expression each phi / loaded value stands for on it, and the
+// content of the tracked local cells.
 type part struct {
 	z   *zone
-	sub map[*ssa.Phi]lin
+	sub map[ssa.Value]lin
+	mem map[*ssa.Alloc]lin
+}
+
+func (pt *part) clone() *part {
+	c := &part{z: pt.z.clone(), sub: make(map[ssa.Value]lin, len(pt.sub)), mem: make(map[*ssa.Alloc]lin, len(pt.mem))}
+	for k, v := range pt.sub {
+		c.sub[k] = v
+	}
+	for k, v := range pt.mem {
+		c.mem[k] = v
+	}
+	return c
 }
 
 const maxParts = 64
@@ -246,25 +267,16 @@ const maxParts = 64
 var (
 	bigMinI64 = new(big.Int).Neg(new(big.Int).Lsh(big.NewInt(1), 63))
 	bigMaxI64 = new(big.Int).Sub(new(big.Int).Lsh(big.NewInt(1), 63), big.NewInt(1))
-	bigMinI32 = big.NewInt(-1 << 31)
-	bigMaxI32 = big.NewInt(1<<31 - 1)
 )
 
+// typeBounds: the interpreter tracks int64 values (offsets, lengths, sizes); everything else is opaque.
 func (a *zoneAI) typeBounds(t types.Type) (lo, hi *big.Int, ok bool) {
 	b, isB := t.Underlying().(*types.Basic)
 	if !isB {
 		return nil, nil, false
 	}
-	switch b.Kind() {
-	case types.Int64:
+	if b.Kind() == types.Int64 {
 		return bigMinI64, bigMaxI64, true
-	case types.Int:
-		if a.word == 32 {
-			return bigMinI32, bigMaxI32, true
-		}
-		return bigMinI64, bigMaxI64, true
-	case types.Int32:
-		return bigMinI32, bigMaxI32, true
 	}
 	return nil, nil, false
 }
@@ -282,8 +294,12 @@ func (a *zoneAI) sym(v ssa.Value) int {
 	if ex, ok := v.(*ssa.Extract); ok {
 		if c, ok := ex.Tuple.(*ssa.Call); ok {
 			cn := calleeName(c)
-			nm = cn[strings.LastIndex(cn, ".")+1:] + "@L" + itoa(a.p.Fset.Position(c.Pos()).Line)
+			nm = cn[strings.LastIndex(cn, ".")+1:] + "#" + itoa(ex.Index) + "@L" + itoa(a.p.Fset.Position(c.Pos()).Line)
 		}
+	}
+	if c, ok := v.(*ssa.Call); ok {
+		cn := calleeName(c)
+		nm = cn[strings.LastIndex(cn, ".")+1:] + "@L" + itoa(a.p.Fset.Position(c.Pos()).Line)
 	}
 	if ph, ok := v.(*ssa.Phi); ok && ph.Comment != "" {
 		nm = ph.Comment + "'"
@@ -292,23 +308,35 @@ func (a *zoneAI) sym(v ssa.Value) int {
 	return i
 }
 
+func constBig(x *ssa.Const) (*big.Int, bool) {
+	if x.Value == nil || x.Value.Kind() != constant.Int {
+		return nil, false
+	}
+	bi, ok := new(big.Int).SetString(x.Value.ExactString(), 10)
+	return bi, ok
+}
+
+// linOf: trace-independent expression of v (phis and loads are symbols).
 func (a *zoneAI) linOf(v ssa.Value) (lin, bool) {
+	if l, ok := a.override[v]; ok {
+		return l, true
+	}
 	if l, ok := a.lins[v]; ok {
 		return l, true
 	}
-	if _, _, ok := a.typeBounds(v.Type()); !ok {
-		if c, isC := v.(*ssa.Const); !isC || c.Value == nil || c.Value.Kind() != constant.Int {
-			return lin{}, false
+	if c, isC := v.(*ssa.Const); isC {
+		if bi, ok := constBig(c); ok {
+			if _, _, okT := a.typeBounds(v.Type()); okT {
+				return linConst(bi), true
+			}
 		}
+		return lin{}, false
+	}
+	if _, _, ok := a.typeBounds(v.Type()); !ok {
+		return lin{}, false
 	}
 	var l lin
 	switch x := v.(type) {
-	case *ssa.Const:
-		if x.Value == nil || x.Value.Kind() != constant.Int {
-			return lin{}, false
-		}
-		bi, _ := new(big.Int).SetString(x.Value.ExactString(), 10)
-		l = linConst(bi)
 	case *ssa.BinOp:
 		lx, okx := a.linOf(x.X)
 		ly, oky := a.linOf(x.Y)
@@ -318,14 +346,6 @@ func (a *zoneAI) linOf(v ssa.Value) (lin, bool) {
 		case x.Op == token.SUB && okx && oky:
 			l = lx.plus(ly, -1)
 		default:
-			l = linSym(a.sym(v))
-		}
-	case *ssa.Convert:
-		lo1, hi1, ok1 := a.typeBounds(x.X.Type())
-		lo2, hi2, ok2 := a.typeBounds(x.Type())
-		if lx, ok := a.linOf(x.X); ok && ok1 && ok2 && lo2.Cmp(lo1) <= 0 && hi2.Cmp(hi1) >= 0 {
-			l = lx
-		} else {
 			l = linSym(a.sym(v))
 		}
 	case *ssa.ChangeType:
@@ -339,6 +359,38 @@ func (a *zoneAI) linOf(v ssa.Value) (lin, bool) {
 	}
 	a.lins[v] = l
 	return l, true
+}
+
+// linIn: the expression of v on the trace class pt.
+func (a *zoneAI) linIn(v ssa.Value, pt *part) (lin, bool) {
+	if pt != nil {
+		if l, ok := pt.sub[v]; ok {
+			return l, true
+		}
+	}
+	if l, ok := a.override[v]; ok {
+		return l, true
+	}
+	switch x := v.(type) {
+	case *ssa.BinOp:
+		if x.Op == token.ADD || x.Op == token.SUB {
+			if _, _, ok := a.typeBounds(x.Type()); ok {
+				lx, okx := a.linIn(x.X, pt)
+				ly, oky := a.linIn(x.Y, pt)
+				if okx && oky {
+					if x.Op == token.ADD {
+						return lx.plus(ly, 1), true
+					}
+					return lx.plus(ly, -1), true
+				}
+			}
+		}
+	case *ssa.ChangeType:
+		if l, ok := a.linIn(x.X, pt); ok {
+			return l, true
+		}
+	}
+	return a.linOf(v)
 }
 
 func isBackEdgeFree(f *ssa.Function) bool {
@@ -380,21 +432,70 @@ func topoBlocks(f *ssa.Function) []*ssa.BasicBlock {
 	return order
 }
 
+func newZoneAI(p *Program, f *ssa.Function) *zoneAI {
+	return &zoneAI{p: p, f: f, syms: map[ssa.Value]int{}, names: []string{"0"}, lins: map[ssa.Value]lin{}, override: map[ssa.Value]lin{},
+		boolFacts: map[ssa.Value][]func(a *zoneAI) lin{}, callFacts: map[ssa.Instruction][]func(a *zoneAI, pt *part) (lin, bool){}, in: map[*ssa.BasicBlock][]*part{}, out: map[*ssa.BasicBlock][]*part{}, cells: map[*ssa.Alloc]bool{}, word: 64}
+}
+
 // runZone analyses f. axioms gives extra bounds for base symbols (nil = none).
 func runZone(p *Program, f *ssa.Function, axioms func(v ssa.Value) (lo, hi *big.Int)) *zoneAI {
+	a := newZoneAI(p, f)
+	a.axioms = axioms
+	a.run()
+	return a
+}
+
+// trackableCell: a local int64 variable that is only stored to, loaded from, or whose address is
+// put into a struct literal field in a block that returns (the output literal).
+func trackableCell(al *ssa.Alloc) bool {
+	if al.Referrers() == nil {
+		return false
+	}
+	for _, ref := range *al.Referrers() {
+		switch x := ref.(type) {
+		case *ssa.UnOp:
+			if x.Op != token.MUL {
+				return false
+			}
+		case *ssa.Store:
+			if x.Addr == ssa.Value(al) {
+				continue
+			}
+			// address stored: only into a field of a literal, in a returning block
+			if _, isFA := x.Addr.(*ssa.FieldAddr); !isFA {
+				return false
+			}
+			if _, isRet := x.Block().Instrs[len(x.Block().Instrs)-1].(*ssa.Return); !isRet {
+				return false
+			}
+		case *ssa.DebugRef:
+		default:
+			return false
+		}
+	}
+	return true
+}
+
+func (a *zoneAI) run() {
+	f := a.f
 	if !isBackEdgeFree(f) {
 		broken("zone analysis: %s has a loop (the interpreter handles loop-free code only)", fnName(f))
 	}
-	a := &zoneAI{p: p, f: f, syms: map[ssa.Value]int{}, names: []string{"0"}, lins: map[ssa.Value]lin{}, axioms: axioms, in: map[*ssa.BasicBlock][]*part{}, word: 64}
-	if strings.HasSuffix(p.Config, "/386") || strings.HasSuffix(p.Config, "/arm") {
-		a.word = 32
+	for _, v := range a.extraSyms {
+		a.sym(v)
 	}
-	// pre-pass: register every integer value
 	for _, prm := range f.Params {
 		a.linOf(prm)
 	}
 	for _, b := range f.Blocks {
 		for _, in := range b.Instrs {
+			if al, ok := in.(*ssa.Alloc); ok {
+				if pt, ok := al.Type().Underlying().(*types.Pointer); ok {
+					if _, _, okT := a.typeBounds(pt.Elem()); okT && trackableCell(al) {
+						a.cells[al] = true
+					}
+				}
+			}
 			if v, ok := in.(ssa.Value); ok {
 				a.linOf(v)
 			}
@@ -409,14 +510,13 @@ func runZone(p *Program, f *ssa.Function, axioms func(v ssa.Value) (lo, hi *big.
 	n := len(a.names)
 	top := newZone(n)
 	for v, i := range a.syms {
-		lo, hi, ok := a.typeBounds(v.Type())
-		if ok {
+		if lo, hi, ok := a.typeBounds(v.Type()); ok {
 			top.add(i, 0, hi)
 			top.add(0, i, new(big.Int).Neg(lo))
 		}
-		if axioms != nil {
+		if a.axioms != nil {
 			if _, isPhi := v.(*ssa.Phi); !isPhi {
-				alo, ahi := axioms(v)
+				alo, ahi := a.axioms(v)
 				if alo != nil {
 					top.add(0, i, new(big.Int).Neg(alo))
 				}
@@ -426,73 +526,142 @@ func runZone(p *Program, f *ssa.Function, axioms func(v ssa.Value) (lo, hi *big.
 			}
 		}
 	}
+	if a.setup != nil {
+		a.setup(a, top)
+	}
 	top.close()
 	order := topoBlocks(f)
-	a.in[order[0]] = []*part{{z: top, sub: map[*ssa.Phi]lin{}}}
 	for _, b := range order {
-		if b == order[0] {
-			continue
-		}
 		var parts []*part
-		for _, pr := range b.Preds {
-			for _, ps := range a.in[pr] {
-				if es := a.edgeState(pr, b, ps); es != nil && !es.z.bottom {
+		if b == order[0] {
+			parts = []*part{{z: top, sub: map[ssa.Value]lin{}, mem: map[*ssa.Alloc]lin{}}}
+		} else {
+			seen := map[string]bool{}
+			for _, pr := range b.Preds {
+				for _, ps := range a.out[pr] {
+					if ps.z.bottom {
+						continue
+					}
+					es := a.edgeState(pr, b, ps)
+					if es == nil || es.z.bottom {
+						continue
+					}
+					k := a.partKey(es)
+					if seen[k] {
+						continue
+					}
+					seen[k] = true
 					parts = append(parts, es)
 				}
 			}
-		}
-		if len(parts) > maxParts {
-			parts = []*part{a.joinParts(parts)}
-			a.joined = true
+			if len(parts) > maxParts {
+				parts = []*part{a.joinParts(parts)}
+				a.joined = true
+			}
 		}
 		a.in[b] = parts
+		var outs []*part
+		for _, pt := range parts {
+			outs = append(outs, a.transfer(b, pt))
+		}
+		a.out[b] = outs
 	}
-	return a
 }
 
-// linIn: the linear expression of v on the trace described by sub.
-func (a *zoneAI) linIn(v ssa.Value, sub map[*ssa.Phi]lin) (lin, bool) {
-	switch x := v.(type) {
-	case *ssa.Phi:
-		if l, ok := sub[x]; ok {
-			return l, true
+func (a *zoneAI) partKey(pt *part) string {
+	var sb strings.Builder
+	for i := range pt.z.m {
+		for j := range pt.z.m[i] {
+			if pt.z.m[i][j] == nil {
+				sb.WriteString("~,")
+			} else {
+				sb.WriteString(pt.z.m[i][j].String())
+				sb.WriteByte(',')
+			}
 		}
-	case *ssa.BinOp:
-		if x.Op == token.ADD || x.Op == token.SUB {
-			if _, _, ok := a.typeBounds(x.Type()); ok {
-				lx, okx := a.linIn(x.X, sub)
-				ly, oky := a.linIn(x.Y, sub)
-				if okx && oky {
-					if x.Op == token.ADD {
-						return lx.plus(ly, 1), true
-					}
-					return lx.plus(ly, -1), true
+	}
+	var ks []string
+	for v, l := range pt.sub {
+		ks = append(ks, v.Name()+"="+a.show(l))
+	}
+	for v, l := range pt.mem {
+		ks = append(ks, "*"+v.Name()+"="+a.show(l))
+	}
+	sort.Strings(ks)
+	sb.WriteString(strings.Join(ks, ";"))
+	return sb.String()
+}
+
+// transfer: the effect of the instructions of b on one trace class (stores to and loads from the
+// tracked local cells; everything else is expression-valued SSA and needs no state).
+func (a *zoneAI) transfer(b *ssa.BasicBlock, in *part) *part {
+	var pt *part
+	for _, ins := range b.Instrs {
+		if fs := a.callFacts[ins]; len(fs) > 0 {
+			if pt == nil {
+				pt = in.clone()
+			}
+			for _, mk := range fs {
+				if l, ok := mk(a, pt); ok {
+					pt.z.assume(l)
+				}
+			}
+			pt.z.close()
+		}
+		switch x := ins.(type) {
+		case *ssa.Store:
+			if al, ok := x.Addr.(*ssa.Alloc); ok && a.cells[al] {
+				if pt == nil {
+					pt = in.clone()
+				}
+				if l, ok := a.linIn(x.Val, pt); ok {
+					pt.mem[al] = l
+				} else {
+					delete(pt.mem, al)
+				}
+			}
+		case *ssa.UnOp:
+			if al, ok := x.X.(*ssa.Alloc); ok && x.Op == token.MUL && a.cells[al] {
+				if pt == nil {
+					pt = in.clone()
+				}
+				if l, ok := pt.mem[al]; ok {
+					pt.sub[x] = l
+				} else if stored := a.everStored(al, pt); !stored {
+					pt.sub[x] = linConst(big.NewInt(0)) // zero value of a fresh local
 				}
 			}
 		}
-	case *ssa.Convert:
-		lo1, hi1, ok1 := a.typeBounds(x.X.Type())
-		lo2, hi2, ok2 := a.typeBounds(x.Type())
-		if ok1 && ok2 && lo2.Cmp(lo1) <= 0 && hi2.Cmp(hi1) >= 0 {
-			return a.linIn(x.X, sub)
-		}
-	case *ssa.ChangeType:
-		if l, ok := a.linIn(x.X, sub); ok {
-			return l, true
-		}
 	}
-	return a.linOf(v)
+	if pt == nil {
+		return in
+	}
+	return pt
 }
 
-// edgeState: a trace of pred extended towards b: refined by the branch condition, phis of b bound
-// to the expression they take on this edge.
+// everStored: a cell with no entry in mem is zero only if no store can have happened; a store whose
+// value was not an integer expression deletes the entry, so distinguish by scanning the stores.
+func (a *zoneAI) everStored(al *ssa.Alloc, pt *part) bool {
+	for _, ref := range *al.Referrers() {
+		if st, ok := ref.(*ssa.Store); ok && st.Addr == ssa.Value(al) {
+			if _, ok := a.linOf(st.Val); !ok {
+				return true
+			}
+		}
+	}
+	// all stores have integer expressions: absence from mem means none executed on this trace
+	return false
+}
+
+// edgeState: a trace class of pred extended towards b: refined by the branch condition, phis of b
+// bound to the expression they take on this edge.
 func (a *zoneAI) edgeState(pr, b *ssa.BasicBlock, ps *part) *part {
-	z := ps.z.clone()
+	np := ps.clone()
 	if ifi, ok := pr.Instrs[len(pr.Instrs)-1].(*ssa.If); ok && len(pr.Succs) == 2 && pr.Succs[0] != pr.Succs[1] {
 		holds := pr.Succs[0] == b
-		a.refine(z, ifi.Cond, holds, ps.sub)
-		z.close()
-		if z.bottom {
+		a.refine(np.z, ifi.Cond, holds, ps)
+		np.z.close()
+		if np.z.bottom {
 			return nil
 		}
 	}
@@ -502,43 +671,39 @@ func (a *zoneAI) edgeState(pr, b *ssa.BasicBlock, ps *part) *part {
 			pidx = i
 		}
 	}
-	sub := map[*ssa.Phi]lin{}
-	for k, v := range ps.sub {
-		sub[k] = v
-	}
 	for _, in := range b.Instrs {
 		phi, ok := in.(*ssa.Phi)
 		if !ok {
 			break
 		}
-		if e, ok := a.linIn(phi.Edges[pidx], ps.sub); ok {
-			sub[phi] = e
+		if e, ok := a.linIn(phi.Edges[pidx], ps); ok {
+			np.sub[phi] = e
 		}
 	}
-	return &part{z: z, sub: sub}
+	return np
 }
 
-// joinParts: the sound fallback when too many traces accumulate: phis become symbols again, bounded
-// by what each trace knows about the expression they stood for; zones are joined.
+// joinParts: the sound fallback when too many trace classes accumulate: substituted values become
+// symbols again, bounded by what each class knows about the expression they stood for.
 func (a *zoneAI) joinParts(parts []*part) *part {
 	var acc *zone
 	for _, pt := range parts {
 		z := pt.z.clone()
-		for phi, e := range pt.sub {
-			si, ok := a.syms[phi]
+		for v, e := range pt.sub {
+			si, ok := a.syms[v]
 			if !ok {
 				continue
 			}
 			z.forget(si)
-			if lo, hi, ok := a.typeBounds(phi.Type()); ok {
+			if lo, hi, ok := a.typeBounds(v.Type()); ok {
 				z.add(si, 0, hi)
 				z.add(0, si, new(big.Int).Neg(lo))
 			}
 			if hi := z.upper(e); hi != nil {
 				z.add(si, 0, hi)
 			}
-			if lo := z.upper(e.neg()); lo != nil {
-				z.add(0, si, lo)
+			if nlo := z.upper(e.neg()); nlo != nil {
+				z.add(0, si, nlo)
 			}
 			if len(e.co) == 1 {
 				for s2, co := range e.co {
@@ -552,13 +717,16 @@ func (a *zoneAI) joinParts(parts []*part) *part {
 		z.close()
 		acc = joinZones(acc, z)
 	}
-	return &part{z: acc, sub: map[*ssa.Phi]lin{}}
+	return &part{z: acc, sub: map[ssa.Value]lin{}, mem: map[*ssa.Alloc]lin{}}
 }
 
-// impliedAt: l(sub) <= 0 on every trace reaching b; returns the expression of the first trace that fails.
-func (a *zoneAI) impliedAt(b *ssa.BasicBlock, mk func(sub map[*ssa.Phi]lin) (lin, bool)) (bool, string) {
-	for _, pt := range a.in[b] {
-		l, ok := mk(pt.sub)
+// impliedAt: l <= 0 on every trace class leaving b; returns the expression of the first that fails.
+func (a *zoneAI) impliedAt(b *ssa.BasicBlock, mk func(pt *part) (lin, bool)) (bool, string) {
+	for _, pt := range a.out[b] {
+		if pt.z.bottom {
+			continue
+		}
+		l, ok := mk(pt)
 		if !ok {
 			return false, "not an integer expression"
 		}
@@ -569,24 +737,41 @@ func (a *zoneAI) impliedAt(b *ssa.BasicBlock, mk func(sub map[*ssa.Phi]lin) (lin
 	return true, ""
 }
 
-func (a *zoneAI) valueOf(sym int) ssa.Value {
-	for v, i := range a.syms {
-		if i == sym {
-			return v
+// equalAt: the two expressions are the same linear form on every trace class leaving b.
+func (a *zoneAI) equalAt(b *ssa.BasicBlock, x, y func(pt *part) (lin, bool)) (bool, string) {
+	for _, pt := range a.out[b] {
+		if pt.z.bottom {
+			continue
+		}
+		lx, ok1 := x(pt)
+		ly, ok2 := y(pt)
+		if !ok1 || !ok2 {
+			return false, "not an integer expression"
+		}
+		d := lx.plus(ly, -1)
+		if !(pt.z.implied(d) && pt.z.implied(d.neg())) {
+			return false, a.show(lx) + " vs " + a.show(ly)
 		}
 	}
-	return nil
+	return true, ""
 }
 
-func (a *zoneAI) refine(z *zone, cond ssa.Value, holds bool, sub map[*ssa.Phi]lin) {
+func (a *zoneAI) refine(z *zone, cond ssa.Value, holds bool, pt *part) {
+	if holds {
+		for _, mk := range a.boolFacts[cond] {
+			z.assume(mk(a))
+		}
+	}
 	switch c := cond.(type) {
 	case *ssa.UnOp:
 		if c.Op == token.NOT {
-			a.refine(z, c.X, !holds, sub)
+			a.refine(z, c.X, !holds, pt)
+		} else if c.Op == token.MUL {
+			// a boolean loaded from a local: not tracked
 		}
 	case *ssa.BinOp:
-		lx, okx := a.linIn(c.X, sub)
-		ly, oky := a.linIn(c.Y, sub)
+		lx, okx := a.linIn(c.X, pt)
+		ly, oky := a.linIn(c.Y, pt)
 		if !okx || !oky {
 			return
 		}
@@ -649,10 +834,10 @@ func (a *zoneAI) show(l lin) string {
 	return strings.Join(parts, " ")
 }
 
-// overflowSites: every integer ADD/SUB of f whose result is not proven to stay within its type.
+// overflowSites: every int64 ADD/SUB of f whose result is not proven to stay within its type.
 func (a *zoneAI) overflowSites() (total int, bad []string) {
 	for _, b := range a.f.Blocks {
-		if len(a.in[b]) == 0 {
+		if len(a.out[b]) == 0 {
 			continue
 		}
 		for _, in := range b.Instrs {
@@ -665,12 +850,15 @@ func (a *zoneAI) overflowSites() (total int, bad []string) {
 				continue
 			}
 			total++
-			okUp, w1 := a.impliedAt(b, func(sub map[*ssa.Phi]lin) (lin, bool) {
-				l, ok := a.linIn(bo, sub)
+			okUp, w1 := a.impliedAt(b, func(pt *part) (lin, bool) {
+				l, ok := a.linIn(bo, pt)
+				if !ok {
+					return l, false
+				}
 				return l.plus(linConst(hi), -1), ok
 			})
-			okDn, w2 := a.impliedAt(b, func(sub map[*ssa.Phi]lin) (lin, bool) {
-				l, ok := a.linIn(bo, sub)
+			okDn, w2 := a.impliedAt(b, func(pt *part) (lin, bool) {
+				l, ok := a.linIn(bo, pt)
 				if !ok {
 					return l, false
 				}
